@@ -571,7 +571,28 @@ func (f *filterRule) Compare(x *Explorer, fr *Frame, op token.Token, l, r ssa.Va
 	if op != token.EQL && op != token.NEQ {
 		return Unknown
 	}
-	lt, rt := x.TM.Of(fr, l), x.TM.Of(fr, r)
+	return f.decide(op, uncell(x.TM.Of(fr, l)), uncell(x.TM.Of(fr, r)))
+}
+
+// ValueOf: a boolean computed outside the predicate and captured by it (filterSet := req.F != "") is decided like the
+// comparison it stands for.
+func (f *filterRule) ValueOf(x *Explorer, fr *Frame, v ssa.Value) AV {
+	if b, ok := v.Type().Underlying().(*types.Basic); !ok || b.Kind() != types.Bool {
+		return Unknown
+	}
+	t := uncell(x.TM.Of(fr, v))
+	if t.Op == "binop" && len(t.Args) == 2 {
+		switch t.Name {
+		case "==":
+			return f.decide(token.EQL, uncell(t.Args[0]), uncell(t.Args[1]))
+		case "!=":
+			return f.decide(token.NEQ, uncell(t.Args[0]), uncell(t.Args[1]))
+		}
+	}
+	return Unknown
+}
+
+func (f *filterRule) decide(op token.Token, lt, rt *Term) AV {
 	isReq := func(t *Term) bool {
 		return t.Op == "field" && t.Args[0].V != nil && namedOf(t.Args[0].V.Type()) == f.reqN
 	}
